@@ -66,7 +66,7 @@ Print Assumptions C15_scratch_registers_are_temporaries.
 From Inj Require Import SrcTieArm64.
 From Inj.gen Require Import SrcConsts.
 Theorem C15_source_constants : NOP = ARM64_NOP /\ HI_FIXED = ARM64_BRANCH_HI /\ 0x2000000 = ARM64_BRANCH_LO_NEG /\
-  0x14000000 = ARM64_B_OPCODE /\ 0x4000000 = ARM64_B_MASK + 1 /\
+  0x14000000 = ARM64_B_OPCODE /\ 0x4000000 = ARM64_B_MASK + 1 /\ zlen (flat_map word_bytes [0; NOP; NOP]) = ARM64_PATCH_SIZE /\
   e_jit_size (enc_arm64 false HI_FIXED) (KExec 0) = ARM64_EXEC_JIT_SIZE /\ e_jit_size (enc_arm64 false HI_FIXED) (KBool true) = ARM64_BOOL_JIT_SIZE.
 Proof. exact src_arm64_consts. Qed.
 Print Assumptions C15_source_constants.
